@@ -2,7 +2,9 @@
 //! three types evaluated with all three abscissa types.
 use crate::util::*;
 use rateslib::dual::{Dual, Dual2, Number, NumberMapping};
-use rateslib::splines::{bspldnev_single_f64, bsplev_single_f64, PPSpline};
+use rateslib::splines::{
+    bspldnev_single_dual, bspldnev_single_dual2, bspldnev_single_f64, bsplev_single_dual, bsplev_single_dual2, bsplev_single_f64, PPSpline,
+};
 use serde_json::{json, Value};
 
 fn basis_event(key: &str, k: usize, t: &Vec<f64>, xs: &[f64]) -> Value {
@@ -29,7 +31,29 @@ fn basis_event(key: &str, k: usize, t: &Vec<f64>, xs: &[f64]) -> Value {
     }
     // m = 0 through the derivative entry point too (it must agree with the value entry point)
     let via_d: Vec<Value> = (0..n).map(|i| Value::Array(xs.iter().map(|x| fj(bspldnev_single_f64(x, i, &k, t, 0, None))).collect())).collect();
-    json!({"key": key, "op": "basis", "k": k, "t": fvec(t), "xs": fvec(xs), "vals": vals, "m0_via_deriv": via_d, "o": o})
+    // the four dual-abscissa entry points: x carries sensitivities to two names and (second order) its own curvature
+    let mut dvals = vec![];
+    let mut o = o;
+    for (q, x) in xs.iter().enumerate() {
+        let g = 0.5 + 0.25 * (q % 3) as f64;
+        let x1 = Dual::try_new(*x, vec!["x".to_string(), "w".to_string()], vec![1.0, -g]).unwrap();
+        let x2 = Dual2::try_new(*x, vec!["x".to_string(), "w".to_string()], vec![1.0, g], vec![0.0, 0.25, 0.25, -0.125 * (1 + q % 2) as f64]).unwrap();
+        for i in 0..n {
+            for m in 0..=2usize {
+                let mut push = |f: &str, xj: Value, r: Outcome<Number>| match r {
+                    Outcome::Ok(v) => dvals.push(json!({"fn": f, "i": i, "m": m, "x": xj, "res": number_json(&v)})),
+                    Outcome::Panic(_) => o = "panic",
+                };
+                if m == 0 {
+                    push("bsplev_single_dual", dual_json(&x1), guard(|| Number::Dual(bsplev_single_dual(&x1, i, &k, t, None))));
+                    push("bsplev_single_dual2", dual2_json(&x2), guard(|| Number::Dual2(bsplev_single_dual2(&x2, i, &k, t, None))));
+                }
+                push("bspldnev_single_dual", dual_json(&x1), guard(|| Number::Dual(bspldnev_single_dual(&x1, i, &k, t, m, None))));
+                push("bspldnev_single_dual2", dual2_json(&x2), guard(|| Number::Dual2(bspldnev_single_dual2(&x2, i, &k, t, m, None))));
+            }
+        }
+    }
+    json!({"key": key, "op": "basis", "k": k, "t": fvec(t), "xs": fvec(xs), "vals": vals, "m0_via_deriv": via_d, "dvals": dvals, "o": o})
 }
 
 /// TLC-generated knot vectors (MC_BSpline.CaseSeq): k, t (integers as doubles), nx quarter points
